@@ -131,6 +131,17 @@ def gen_frame(rng, t, ncols: int, kind: str) -> dict:
                 vals = [rng.choice(pool) if rng.random() > 0.05 else None for _ in range(nrows)]
                 if rng.random() < 0.1:
                     vals = [rng.choice(["-----", "1", "1.0", "True", "0", "None", " ", "NA"]) for _ in range(nrows)]
+                if t.get("list_cols") and (j + nrows) % 2 == 0:
+                    # list-valued cells (several terms per subject): their text form is polars' own (no further
+                    # draws from the stream: derived from the strings just drawn)
+                    if (j + nrows) % 4 == 0:
+                        typ = "list_int"
+                        vals = [None if v is None else list(range(1, 1 + (len(v) * 7 + i) % 14)) for i, v in enumerate(vals)]
+                    else:
+                        typ = "list_str"
+                        vals = [None if v is None else
+                                [f"{v} - preferred term number {i} with a fairly long description text", "Second"][: 1 + (i % 2) + (len(v) % 2)]
+                                for i, v in enumerate(vals)]
             elif typ == "int":
                 vals = [rng.randrange(-5, 1000) for _ in range(nrows)]
                 if rng.random() < 0.3:
@@ -536,6 +547,7 @@ def _uses_colour(recipe) -> bool:
 # --------------------------------------------------------------------------
 
 _PL_TYPES = {"str": "Utf8", "int": "Int64", "float": "Float64", "bool": "Boolean", "date": "Date"}
+_PL_LIST_TYPES = {"list_str": "Utf8", "list_int": "Int64"}
 
 
 def build_sized(recipe: dict, figdir: str):
@@ -583,7 +595,8 @@ def build_frame(spec: dict):
         if typ == "date":
             vals = [None if v is None else _dt.date.fromisoformat(v) for v in vals]
         data[name] = vals
-        schema[name] = getattr(pl, _PL_TYPES[typ])
+        schema[name] = (pl.List(getattr(pl, _PL_LIST_TYPES[typ])) if typ in _PL_LIST_TYPES
+                        else getattr(pl, _PL_TYPES[typ]))
     return pl.DataFrame(data, schema=schema)
 
 
@@ -896,6 +909,21 @@ def reference_worker(arg) -> dict:
     if want_sites:
         res["sites"] = sorted(sites)
     return res
+
+
+def import_all():
+    """Cold-process runs (C15): nothing is encoded beforehand, but every module of the package is imported, so
+    that no import (and no import lock) happens while a simulated thread holds the baton."""
+    import importlib
+    import pkgutil
+
+    import rtflite
+
+    for m in pkgutil.walk_packages(rtflite.__path__, "rtflite."):
+        try:
+            importlib.import_module(m.name)
+        except Exception:  # noqa: BLE001 - optional extras
+            pass
 
 
 def warmup():
